@@ -110,7 +110,7 @@ def minmax (t : RType) (max : Bool) (prev : Int) (first : Bool) (base : Option (
       | none => if max then t.hi else t.lo
     if !first && !ascending max x prev then .error .exist else .ok (x, 0)
 
-/-- which of the candidate repairs (fixes/F30.diff, fixes/F51.diff) the modelled source contains -/
+/-- which of the candidate repairs (fixes/F30.diff, fixes/F75.diff) the modelled source contains -/
 structure RFix where
   f30 : Bool := false   -- `|` is refused when no part was started since the previous `|`
   f51 : Bool := false   -- a number / `max` that would open a new part is refused while the previous part is not closed by `|`
